@@ -872,7 +872,7 @@ func earlyLoopExits(f *ssa.Function, h *ssa.BasicBlock, allowErrReturn bool) []*
 			if allowErrReturn {
 				if r, ok := s.Instrs[len(s.Instrs)-1].(*ssa.Return); ok && len(s.Succs) == 0 {
 					rv := retVals(r)
-					if len(rv) > 0 && !isNilConst(rv[len(rv)-1]) && types.TypeString(rv[len(rv)-1].Type(), nil) == "error" {
+					if len(rv) > 0 && !isNilConst(rv[len(rv)-1]) && isErrorLike(rv[len(rv)-1].Type()) {
 						continue
 					}
 				}
@@ -1139,7 +1139,7 @@ func exitIsErrorOutcome(b, s *ssa.BasicBlock) bool {
 		if !ok {
 			break
 		}
-		if types.TypeString(ph.Type(), nil) != "error" {
+		if !isErrorLike(ph.Type()) {
 			continue
 		}
 		if e := ph.Edges[ei]; !(nonNilByConstruction(e) || knownNil(b, e, false)) {
@@ -1160,7 +1160,7 @@ func exitIsErrorOutcome(b, s *ssa.BasicBlock) bool {
 				}
 				if r, ok := rb.Instrs[len(rb.Instrs)-1].(*ssa.Return); ok {
 					rv := retVals(r)
-					if len(rv) > 0 && !isNilConst(rv[len(rv)-1]) && types.TypeString(rv[len(rv)-1].Type(), nil) == "error" {
+					if len(rv) > 0 && !isNilConst(rv[len(rv)-1]) && isErrorLike(rv[len(rv)-1].Type()) {
 						return true
 					}
 				}
@@ -1478,4 +1478,21 @@ func sameLocalLoad(a, b ssa.Value) bool {
 	}
 	al, ok := la.X.(*ssa.Alloc)
 	return ok && uniqueStore(al) != nil
+}
+
+// isErrorLike: the predeclared error type, or a concrete type with an Error() string method (a function that
+// returns *UnmangleError reports failure through it just the same).
+func isErrorLike(t types.Type) bool {
+	if types.TypeString(t, nil) == "error" {
+		return true
+	}
+	ms := types.NewMethodSet(t)
+	for i := 0; i < ms.Len(); i++ {
+		if m := ms.At(i).Obj(); m.Name() == "Error" {
+			if sig, ok := m.Type().(*types.Signature); ok && sig.Params().Len() == 0 && sig.Results().Len() == 1 {
+				return true
+			}
+		}
+	}
+	return false
 }
